@@ -100,7 +100,12 @@ impl<VM: VMBinding> GCTrigger<VM> {
     pub fn clear_request(&self) {
         self.request_flag.store(false, Ordering::Relaxed);
         #[cfg(mmtk_verif)]
-        crate::verif::emit(|| "\"ev\":\"RequestFlag\",\"op\":\"clear\"".to_string());
+        crate::verif::emit(|| {
+            format!(
+                "\"ev\":\"RequestFlag\",\"op\":\"clear\",\"now\":{}",
+                self.request_flag.load(Ordering::Relaxed)
+            )
+        });
     }
 
     /// This method is called periodically by the allocation subsystem
